@@ -1,3 +1,5 @@
+import MpireModel.Model.GracefulStop
+import MpireModel.Proofs.GracefulStop
 import MpireModel.Model.Watch
 import MpireModel.Model.ApplyHandover
 import MpireModel.Model.Protocol
@@ -90,5 +92,51 @@ example : (drun {} [.startReturns, .signalAlive, .kill, .read, .read, .read, .re
   decide +kernel
 /-- the start window: the child has marked itself alive, the parent's object does not know it yet — not a death -/
 example : (drun {} [.signalAlive, .read, .read, .read]).map (·.scan) = some (.verdict false) := by decide +kernel
+
+/-! ## a worker killed on its way out of a call (Model/GracefulStop.lean; defect D30 and its repair) -/
+section GracefulStop
+open Mpire.GracefulStop
+
+/-- The repaired `stop_and_join`, map-family call: for EVERY interleaving of the worker on its way out (poison pill, worker_exit,
+exit result, marking itself dead), a kill at any moment, the death handler's two steps and `stop_and_join` itself — if
+`stop_and_join` returns normally, the worker's exit result is with the main process (so a call completes after a death only when
+every result, exit results included, had been delivered). -/
+theorem repaired_join_returns_only_complete (s : S) (h : Reachable .final false s) (hr : s.mpc = .returned) : s.gotExit = true :=
+  Mpire.Proofs.GracefulStop.final_returns_only_complete s h hr
+
+/-- … it never hangs, in a map-family call or in apply mode (where the victim is replaced) … -/
+theorem repaired_join_never_hangs (ap : Bool) (s : S) (h : Reachable .final ap s) : hung s = false :=
+  Mpire.Proofs.GracefulStop.final_never_hangs ap s h
+
+/-- … and from every reachable state it can come to an end within 12 steps. -/
+theorem repaired_join_can_always_finish (ap : Bool) (s : S) (h : Reachable .final ap s) :
+    ∃ es s', es.length ≤ 12 ∧ run s es = some s' ∧ (s'.mpc = .returned ∨ s'.mpc = .raised) :=
+  Mpire.Proofs.GracefulStop.final_can_always_finish ap s h
+
+/-- The pinned code (defect D30): a worker killed inside worker_exit while the death handler does not look in time — the call
+returns without that worker's exit result. -/
+theorem pinned_join_can_lose_exit_result :
+    ∃ es s, run { variant := .pinned, apply := false } es = some s ∧ s.mpc = .returned ∧ s.gotExit = false :=
+  Mpire.Proofs.GracefulStop.pinned_can_lose_exit_result
+
+/-- A first attempt at the repair (wait while the slot's alive flag is set) spins forever in apply mode, where the death handler
+starts a replacement that sets the flag again. -/
+theorem first_attempt_can_hang : ∃ es s, run { variant := .waitSlot, apply := true } es = some s ∧ hung s = true :=
+  Mpire.Proofs.GracefulStop.wait_slot_can_hang
+
+/-- A second attempt (no look at the exception event after the handler threads are stopped) still loses the exit result: the
+death handler clears the victim's flag before it fails the call, and `stop_and_join` slips through in between. -/
+theorem second_attempt_can_lose_exit_result :
+    ∃ es s, run { variant := .waitObject, apply := false } es = some s ∧ s.mpc = .returned ∧ s.gotExit = false :=
+  Mpire.Proofs.GracefulStop.wait_object_can_lose_exit_result
+
+/-- non-vacuity: an undisturbed shutdown is reachable and returns with the exit result -/
+example : (run { variant := .final, apply := false } [.worker, .worker, .worker, .worker, .main, .main, .main, .main]).map
+    (fun s => (s.mpc, s.gotExit)) = some (.returned, true) := by decide +kernel
+/-- … and a kill inside worker_exit ends in `raised` -/
+example : (run { variant := .final, apply := false } [.worker, .kill, .main, .handler, .main, .main, .handler, .main]).map
+    (fun s => (s.mpc, s.gotExit)) = some (.raised, false) := by decide +kernel
+
+end GracefulStop
 
 end Mpire.C07
